@@ -217,7 +217,12 @@ impl Report {
     }
 
     pub fn write_evidence(&self) {
-        let dir = verif_root().join("evidence");
+        // VERIF_EVIDENCE_DIR: scratch location used by tools/try_seed.sh, so that runs against a
+        // deliberately broken tree never overwrite the evidence of the unchanged tree.
+        let dir = match std::env::var("VERIF_EVIDENCE_DIR") {
+            Ok(d) if !d.is_empty() => PathBuf::from(d),
+            _ => verif_root().join("evidence"),
+        };
         let _ = std::fs::create_dir_all(&dir);
         let mut coverage = serde_json::Map::new();
         coverage.insert("evaluations".into(), json!(self.evaluations));
